@@ -473,7 +473,7 @@ LEVEL_TEXT = ('Proof: for the tables regenerated from finite_diff on every run, 
               'constant-padding variant is affine with the zero-padding scheme as exact difference quotient (1-d and all four '
               'N-d operators on every shape: op_c(x+h) = op_c(x) + op_0(h)); finite_diff is '
               'linear in (pad_const, array) for all 30 pairs (the regenerated tables contain only linear forms); the model '
-              'executed at Q is proved to be the restriction of the model proved at R (Q2R transfer). '
+              'executed at Q -- 1-d and all four N-d operators, any shape and pad constant -- is proved to be the restriction of the model proved at R (Q2R transfer). '
               'order2 x forward/backward is proved to violate the literal statement (recorded finding) and what it '
               'computes instead is proved. The interpreter is tied to the code by an exact correspondence on all '
               'modes x sizes 1..7 and on the N-d operators (1-3 d, nodes in cell centres or on the boundary per side).')
